@@ -12,6 +12,9 @@ OPS += [
  # stages = any `Pipeable` (Inv/ComposeInst.lean)
  ("closed_pipeline", "{S1 L1 S2 L2 α β γ : Type} {Msrc : Machine S1 L1 α β} {Mmid : Machine S2 L2 β γ} (hsrc : UpSide Msrc) (hmid : Pipeable Mmid)",
   "compose (compose Msrc Mmid) (ForEach.machine γ)", "closed_pipeline_safe hsrc hmid s hs", "ComposeInst"),
+ # n-ary operators with closed sources plugged into their slots (Ops/Plug.lean, Inv/PlugSafe.lean): concat!(A, B), merge!(A, src), …
+ ("plugged", "{S1 L1 S2 L2 α β γ : Type} {M1 : Machine S1 L1 α β} {M2 : Machine S2 L2 β γ} (H : PlugSafe.HypP M1 M2) (j : Nat)",
+  "plug j M1 M2", "PlugSafe.plug_basicSafe H j s hs", "PlugSafe"),
 ]
 READABLE = {
  "01": ("GreetFirstOnce", "greetFirstOnce_of_clean hs (fun v hv => h.1 v (by unfold G.viols; exact List.mem_append_right _ hv)) k",
